@@ -2,6 +2,8 @@
 # run every registered check at the given tier, summary to work/run_all_<tier>.log
 cd "$(dirname "$0")/.."
 tier=${1:-quick}
+export VERIF_WORK=/verif/work/$tier
+mkdir -p $VERIF_WORK
 out=work/run_all_$tier.log
 : > $out
 for p in $(cat lib/registered.txt); do
